@@ -44,6 +44,8 @@ def jobs(tier, seed):
         out.append({"kind": "nodeversions", "part": part})
     for c in CLASSES[:4]:
         out.append({"kind": "connect", "cls": c})
+    for c in CLASSES:
+        out.append({"kind": "persist-effect", "cls": c})
     return out
 
 
@@ -434,8 +436,81 @@ def run_connect(job, res):
     res.sample({"kind": "connect", "cls": clsname})
 
 
+def run_persist_effect(job, res):
+    """persistence=True / persistence_file take effect: what the gateway held at stop() is there after a restart,
+    with and without an event callback, for every gateway class."""
+    import shutil
+    import tempfile
+    from ..drive import projection, strict
+    from ..fakes import VLoop
+    from ..persist import FAKE_THREADING
+
+    clsname = job["cls"]
+    tmp = tempfile.mkdtemp(prefix="vf-c18-")
+    try:
+        for with_cb in (True, False):
+            for ext in ("json", "pickle"):
+                path = os.path.join(tmp, f"net-{with_cb}.{ext}")
+                kw = {"persistence": True, "persistence_file": path, "protocol_version": "2.0"}
+                if with_cb:
+                    kw["event_callback"] = None
+                case = {"kind": "persist-effect", "cls": clsname, "event_callback": with_cb, "ext": ext}
+                res.evals += 1
+                loop = VLoop() if clsname.startswith("Async") else None
+
+                def call(coro_or_none):
+                    if loop is not None and coro_or_none is not None:
+                        loop.run_until_complete(coro_or_none)
+                        loop.settle()
+
+                def tick():
+                    if loop is None:
+                        live = [t for t in FAKE_THREADING.live() if getattr(t.function, "__name__", "") == "schedule_save"]
+                        if live:
+                            live[-1].fire()
+                    else:
+                        loop.advance(10.0)
+                        loop.settle()
+                try:
+                    calls = []
+                    gw = construct(clsname, kw, lambda m: calls.append(m))
+                    call(gw.start_persistence())
+                    gw.logic("1;255;0;0;17;2.0")
+                    tick()
+                    gw.logic("1;1;0;0;6;t")
+                    gw.logic("1;1;1;0;0;20.5")
+                    gw.logic("1;255;3;0;0;77")
+                    held = strict(projection(gw.sensors))
+                    call(gw.stop())
+                    for t in FAKE_THREADING.live():
+                        t.cancel()
+                    gw2 = construct(clsname, kw, lambda m: None)
+                    call(gw2.start_persistence())
+                    got = strict(projection(gw2.sensors))
+                    call(gw2.stop())
+                    for t in FAKE_THREADING.live():
+                        t.cancel()
+                except Exception as exc:
+                    res.violation(f"persistence-option-raises:{type(exc).__name__}", f"{clsname} with persistence ({ext}, callback={with_cb}) raised {type(exc).__name__}: {exc}", case)
+                    continue
+                finally:
+                    if loop is not None:
+                        loop.close()
+                res.count("persistence_effects_judged")
+                res.nontrivial((clsname, with_cb, ext))
+                if got != held:
+                    res.violation(f"option-ignored:persistence:{'with' if with_cb else 'without'}-callback",
+                                  f"{clsname}(persistence=True, persistence_file=*.{ext}{', event_callback=...' if with_cb else ''}): the state held at stop() is not restored at the next start", case)
+    finally:
+        shutil.rmtree(tmp, ignore_errors=True)
+    res.sample({"kind": "persist-effect", "cls": clsname})
+
+
 def run(job):
     res = Result()
+    if job["kind"] == "persist-effect":
+        run_persist_effect(job, res)
+        return res
     {"subsets": run_subsets, "readme": run_readme, "gwversions": run_gwversions, "nodeversions": run_nodeversions,
      "connect": run_connect}[job["kind"]](job, res)
     return res
@@ -444,7 +519,9 @@ def run(job):
 def replay(case):
     res = Result()
     k = case["kind"]
-    if k == "subsets" or k == "connect":
+    if k == "persist-effect":
+        r = run({"kind": k, "cls": case["cls"]})
+    elif k == "subsets" or k == "connect":
         r = run({"kind": k, "cls": case["cls"], "seed": 0})
     elif k == "readme":
         r = run({"kind": "readme"})
@@ -469,14 +546,16 @@ def finish(agg, tier):
         "rule": "six gateway classes x all 2^7 subsets of their documented keyword options x 2 value sets (constructed for real; "
                 "each option then observed: transport.timeout / reconnect_timeout, prefixes and retain on the next publish and on "
                 "subscriptions, port/baud/server_address, persistence object and file, protocol tables via distinguishing frames, "
-                "event callback on the next accepted message); first connect attempt and retry delay under fake serial / socket / "
+                "event callback on the next accepted message; persistence judged by its effect: start_persistence, messages, a save tick, "
+                "more messages, stop, restart - with and without an event callback, json and pickle, every class); first connect attempt and retry delay under fake serial / socket / "
                 "asyncio connect; README constructor snippets executed literally; version strings major 0..3 x minor 0..12 x patch "
                 "{absent,0..3} for the gateway and for the version a node presents, judged against numeric comparison. distinct = "
                 "(class, option subset, value set) / version string.",
         "exhaustive": True,
         "floors": [("constructed", c.get("constructed", 0), 1200), ("gateway_versions_judged", c.get("gateway_versions_judged", 0), 260),
                    ("node_versions_judged", c.get("node_versions_judged", 0), 200), ("readme_snippets_run", c.get("readme_snippets_run", 0), 2),
-                   ("connect_attempts_observed", c.get("connect_attempts_observed", 0), 8), ("mqtt_publish_checks", c.get("mqtt_publish_checks", 0), 200)],
+                   ("connect_attempts_observed", c.get("connect_attempts_observed", 0), 8), ("mqtt_publish_checks", c.get("mqtt_publish_checks", 0), 200),
+                   ("persistence_effects_judged", c.get("persistence_effects_judged", 0), 24)],
         "assumptions": ["documented options = README + constructor signatures; 2.0 and 2.1 tables are behaviourally identical and "
                         "are judged as one class; 'v2.2', '2.2.0-rc1', 2 and '2' are executed but their table is not judged"],
         "show": ["constructed", "gateway_versions_judged", "node_versions_judged", "readme_snippets_run", "connect_attempts_observed"],
